@@ -774,7 +774,11 @@ partial def evalF (env : String → Float) : Expr Float → Except Err Float
     match o with
     | .add => pure (x + y) | .sub => pure (x - y) | .mul => pure (x * y)
     | .div => if y.abs < dblMin then .error .divSmall else pure (x / y)
-    | .pow => pure (Float.pow x y)
+    | .pow =>
+      -- OpPower::apply does not look at errno, but a domain/range error of pow leaks into the errno
+      -- test of an enclosing binary function: not predicted by the model
+      let r := Float.pow x y
+      if !r.isFinite || (r.abs < dblMin && x != 0) then .error .dom else pure r
   | .ipow n a => do
     let x ← evalF env a
     if -16 ≤ n && n ≤ 16 then
